@@ -36,11 +36,11 @@ Definition rd_open (r : option nat) (cl : list nat) : Prop :=
 (* a Reader method returns the answer of an open handle, the latched load error,
    or errUnloadedWhileLoading *)
 Definition lookup_res (x : res) : Prop :=
-  match x with ROk _ | RErr ELoad | RErr EUnloaded => True | _ => False end.
+  match x with ROk _ b => b = false | RErr ELoad | RErr EUnloaded => True | _ => False end.
 Definition unload_res (x : res) : Prop :=
   match x with RNil | RErr ENotIdle | RErr EClose => True | _ => False end.
 Definition good_res (x : res) : Prop :=
-  match x with RPanic | RUAC _ => False | _ => True end.
+  match x with RPanic | RUAC _ => False | ROk _ b => b = false | _ => True end.
 
 Definition err_ok (e : option errk) : Prop :=
   match e with None | Some ELoad => True | _ => False end.
@@ -58,6 +58,7 @@ Definition pc_ok (r : option nat) (cl : list nat) (p : pc) : Prop :=
   | U_Unlock x => rd_open r cl /\ unload_res x
   | L_RUnlockEnd x => lookup_res x
   | Done x => good_res x
+  | Dangling _ => False
   | _ => True
   end.
 
@@ -117,11 +118,12 @@ Local Ltac finish_pc :=
   apply Forall_app; split; [|apply Forall_cons_iff; split]; simpl; auto.
 
 Lemma tstep_inv c s p s' p' l r :
-  Inv s (l ++ p :: r) -> tstep c s p = Some (s', p') -> Inv s' (l ++ p' :: r).
+  Inv s (l ++ p :: r) -> tstep false c s p = Some (s', p') -> Inv s' (l ++ p' :: r).
 Proof.
   intros HI Hs. destruct s as [n w rdv e u nh cl lo lf un uf].
   split_inv HI.
-  destruct p; simpl in Hs;
+  destruct p; simpl in Hs; simpl in Hpp;
+    try (match type of Hs with context [Dangling] => destruct r0 as [? []| | | | |]; simpl in Hpp; try discriminate Hpp end);
     repeat match type of Hs with
       | context [if ?b then _ else _] => let E := fresh "E" in destruct b eqn:E
       | context [match ?b with Some _ => _ | None => _ end] => let E := fresh "E" in destruct b eqn:E
@@ -171,13 +173,13 @@ Proof.
   induction n; simpl; constructor; auto. exact I.
 Qed.
 
-Lemma step_inv x y : step x y -> Inv (fst x) (snd x) -> Inv (fst y) (snd y).
+Lemma step_inv x y : step false x y -> Inv (fst x) (snd x) -> Inv (fst y) (snd y).
 Proof. intros H. destruct H; simpl. intros HI. eapply tstep_inv; eauto. Qed.
 
-Lemma steps_inv x y : steps x y -> Inv (fst x) (snd x) -> Inv (fst y) (snd y).
+Lemma steps_inv x y : steps false x y -> Inv (fst x) (snd x) -> Inv (fst y) (snd y).
 Proof. induction 1; auto. intros HI. eapply step_inv; eauto. Qed.
 
-Lemma reachable_inv s ts : reachable s ts -> Inv s ts.
+Lemma reachable_inv s ts : reachable false s ts -> Inv s ts.
 Proof. intros (n & u0 & H). apply (steps_inv _ _ H). simpl. apply inv_init. Qed.
 
 Lemma Forall_In_pc (P : pc -> Prop) l p : Forall P l -> In p l -> P p.
@@ -195,7 +197,7 @@ Proof.
 Qed.
 
 Lemma no_use_after_close s ts h :
-  reachable s ts -> In (L_UseCall h) ts ->
+  reachable false s ts -> In (L_UseCall h) ts ->
   1 <= readers s /\ writer s = false /\ rd s = Some h /\ is_closed h (closed s) = false.
 Proof.
   intros HR Hin. apply reachable_inv in HR.
@@ -205,7 +207,7 @@ Proof.
 Qed.
 
 Lemma reader_field_not_nil s ts p :
-  reachable s ts -> In p ts -> p = L_Touch \/ p = L_UseRead ->
+  reachable false s ts -> In p ts -> p = L_Touch \/ p = L_UseRead ->
   1 <= readers s /\ writer s = false /\ exists h, rd s = Some h /\ is_closed h (closed s) = false.
 Proof.
   intros HR Hin Hp. apply reachable_inv in HR.
@@ -217,7 +219,7 @@ Proof.
 Qed.
 
 Lemma rw_excl s ts :
-  reachable s ts ->
+  reachable false s ts ->
   readers s = cnt holdsR ts /\ cnt holdsW ts = (if writer s then 1 else 0) /\
   (writer s = true -> cnt holdsR ts = 0).
 Proof.
@@ -226,7 +228,7 @@ Proof.
 Qed.
 
 Lemma results_ok s ts x :
-  reachable s ts ->
+  reachable false s ts ->
   (In (L_RUnlockEnd x) ts -> lookup_res x) /\
   (In (U_Unlock x) ts -> unload_res x) /\
   (In (Done x) ts -> good_res x).
@@ -238,7 +240,7 @@ Qed.
 (* counters: successful loads = successful unloads + [loaded], whenever no
    unload is in flight (in particular whenever the write lock is free) *)
 Lemma counts_quiescent s ts :
-  reachable s ts -> writer s = false ->
+  reachable false s ts -> writer s = false ->
   loads s - loadfails s = (unloads s - unloadfails s) + (if is_some (rd s) then 1 else 0)
   /\ loadfails s <= loads s /\ unloadfails s <= unloads s.
 Proof.
@@ -250,25 +252,25 @@ Proof.
 Qed.
 
 (* ---------- sequential runs are runs of the transition system ---------- *)
-Lemma steps_trans x y z : steps x y -> steps y z -> steps x z.
+Lemma steps_trans bp x y z : steps bp x y -> steps bp y z -> steps bp x z.
 Proof.
   intros H1 H2. induction H2 as [|a b d H IH Hs]; [exact H1|].
   eapply steps_step; [apply IH; exact H1 | exact Hs].
 Qed.
 
-Lemma run_steps fuel c : forall s p s' x,
-  run fuel c s p = Some (s', x) -> steps (s, [p]) (s', [Done x]).
+Lemma run_steps bp fuel c : forall s p s' x,
+  run bp fuel c s p = Some (s', x) -> steps bp (s, [p]) (s', [Done x]).
 Proof.
   induction fuel as [|f IH]; simpl; intros s p s' x H; [discriminate|].
   assert (Hgen : (exists y, p = Done y /\ s = s' /\ y = x) \/
-                 (exists s1 p1, tstep c s p = Some (s1, p1) /\ run f c s1 p1 = Some (s', x))).
-  { destruct p; try (right; destruct (tstep c s _) as [[s1 p1]|] eqn:E; [eauto|discriminate]).
+                 (exists s1 p1, tstep bp c s p = Some (s1, p1) /\ run bp f c s1 p1 = Some (s', x))).
+  { destruct p; try (right; destruct (tstep bp c s _) as [[s1 p1]|] eqn:E; [eauto|discriminate]).
     left. injection H as <- <-. eauto. }
   destruct Hgen as [(y & -> & -> & ->)|(s1 & p1 & Hs & Hrun)].
   - apply steps_refl.
   - eapply steps_trans; [|apply IH; exact Hrun].
     eapply steps_step; [apply steps_refl|].
-    apply (step_thread c s s1 [] p p1 []). exact Hs.
+    apply (step_thread bp c s s1 [] p p1 []). exact Hs.
 Qed.
 
 (* the sequential invariant: the invariant with one idle thread *)
@@ -282,11 +284,11 @@ Definition op_res_ok (o : op) (x : res) : Prop :=
   | OSweep _ => unload_res x \/ x = RBool false
   end.
 
-Lemma run_S f c s p :
-  run (S f) c s p =
+Lemma run_S bp f c s p :
+  run bp (S f) c s p =
   match p with
   | Done x => Some (s, x)
-  | _ => match tstep c s p with Some (s', p') => run f c s' p' | None => None end
+  | _ => match tstep bp c s p with Some (s', p') => run bp f c s' p' | None => None end
   end.
 Proof. reflexivity. Qed.
 
@@ -298,12 +300,12 @@ Qed.
 
 Local Ltac run_step :=
   rewrite run_S;
-  cbv beta iota delta [tstep start c_op c_ok c_now is_some negb orb Nat.eqb Nat.pred pred].
+  cbv beta iota delta [tstep start c_op c_ok c_now c_bw is_some negb orb andb Nat.eqb Nat.pred pred].
 
 Lemma run_op_cases o ok now s :
   readers s = 0 -> writer s = false -> rd_open (rd s) (closed s) ->
   Forall (fun h => h < nexth s) (closed s) ->
-  exists s' x, run_op o ok now s = Some (s', x) /\ op_res_ok o x.
+  exists s' x, run_op false o ok now s = Some (s', x) /\ op_res_ok o x.
 Proof.
   intros Hn Hw Ho Hlt. destruct s as [n w r e u nh cl lo lf un uf]. simpl in *. subst n w.
   pose proof (is_closed_lt nh nh cl Hlt (le_n _)) as Hfresh.
@@ -316,17 +318,27 @@ Proof.
   all: eexists; eexists; (split; [reflexivity|]); simpl; auto; try (eexists; reflexivity).
 Qed.
 
+Lemma tstep_idle bp c s : tstep bp c s Idle = Some (s, start (c_op c)).
+Proof. destruct s; reflexivity. Qed.
+Lemma tstep_done c s x : good_res x -> tstep false c s (Done x) = Some (s, Idle).
+Proof. destruct s. destruct x as [h []| | | | |]; simpl; intros H; try discriminate H; reflexivity. Qed.
+
+Lemma run_op_unfold bp o ok now s : run_op bp o ok now s = run bp 24 (mkC o ok now true) s (start o).
+Proof. unfold run_op. reflexivity. Qed.
+
 Lemma run_op_quiet o ok now s :
-  quiet s -> exists s' x, run_op o ok now s = Some (s', x) /\ quiet s' /\ op_res_ok o x.
+  quiet s -> exists s' x, run_op false o ok now s = Some (s', x) /\ quiet s' /\ op_res_ok o x.
 Proof.
   intros HQ. destruct (quiet_facts _ HQ) as (Hn & Hw & Ho).
   destruct (run_op_cases o ok now s Hn Hw Ho (inv_lt _ _ HQ)) as (s' & x & Hrun & Hres).
   exists s', x. split; [exact Hrun|]. split; [|exact Hres].
-  unfold run_op in Hrun. apply run_steps in Hrun.
+  pose proof Hrun as Hst. rewrite run_op_unfold in Hst. apply run_steps in Hst.
   assert (H1 : Inv s [start o]).
-  { apply (tstep_inv (mkC o ok now) s Idle s (start o) [] [] HQ). destruct s; reflexivity. }
-  pose proof (steps_inv _ _ Hrun H1) as H2. simpl in H2.
-  apply (tstep_inv (mkC o ok now) s' (Done x) s' Idle [] [] H2). destruct s'; reflexivity.
+  { apply (tstep_inv (mkC o ok now true) s Idle s (start o) [] [] HQ). apply tstep_idle. }
+  pose proof (steps_inv _ _ Hst H1) as H2. simpl in H2.
+  change (Inv s' ([] ++ Idle :: [])).
+  apply (tstep_inv (mkC o ok now true) s' (Done x) s' Idle [] []); [exact H2|]. apply tstep_done.
+  pose proof (inv_pc _ _ H2) as Hp. inversion Hp; subst. assumption.
 Qed.
 
 Local Opaque run_op.
@@ -339,10 +351,10 @@ Proof. apply (inv_init u0 1). Qed.
 Lemma op_class_of o x : op_res_ok o x -> op_class_ok o (class_of x) = true.
 Proof.
   destruct o; simpl.
-  - destruct x as [|[]| | | |]; simpl; tauto.
-  - destruct x as [|[]| | | |]; simpl; tauto.
+  - destruct x as [|[]| |[]| |]; simpl; intros; try contradiction; reflexivity.
+  - destruct x as [|[]| |[]| |]; simpl; intros; try contradiction; reflexivity.
   - intros [[] ->]; reflexivity.
-  - intros [H| ->]; [destruct x as [|[]| | | |]; simpl in *; tauto | reflexivity].
+  - intros [H| ->]; [destruct x as [|[]| |[]| |]; simpl in *; try contradiction; reflexivity | reflexivity].
 Qed.
 
 Lemma obs_matches_refl s x : obs_matches s x (obs_of s x) = true.
@@ -354,8 +366,8 @@ Qed.
 
 Lemma seq_model_ok load_ok : forall ops s,
   quiet s ->
-  exists obs, seq_model load_ok s ops = Some obs
-    /\ seq_ok load_ok s obs = true
+  exists obs, seq_model false load_ok s ops = Some obs
+    /\ seq_ok false load_ok s obs = true
     /\ forallb (fun x => op_class_ok (fst (fst x)) (o_res (snd x))) obs = true
     /\ map (fun x => (fst (fst x), snd (fst x))) obs = ops.
 Proof.
@@ -369,7 +381,7 @@ Qed.
 
 (* whenever the implementation's observations agree with the model, they satisfy the predicate *)
 Lemma seq_ok_pred load_ok : forall obs s,
-  quiet s -> seq_ok load_ok s obs = true ->
+  quiet s -> seq_ok false load_ok s obs = true ->
   forallb (fun x => op_class_ok (fst (fst x)) (o_res (snd x))) obs = true.
 Proof.
   induction obs as [|[[o now] ob] obs IH]; intros s HQ H; simpl in *; [reflexivity|].
@@ -384,3 +396,27 @@ Qed.
 (* ---------- tie T ---------- *)
 Lemma facts_hold : facts_ok = true.
 Proof. vm_compute. reflexivity. Qed.
+
+(* no delegating method hands out memory-backed answers *)
+Lemma bp_src_false : bp_src = false.
+Proof. vm_compute. reflexivity. Qed.
+
+(* ---------- executing a schedule yields a run ---------- *)
+Lemma upd_split : forall i ts p p', nth_error ts i = Some p ->
+  exists l r, ts = l ++ p :: r /\ upd i p' ts = l ++ p' :: r.
+Proof.
+  induction i as [|i IH]; intros [|a ts] p p' H; simpl in H; try discriminate.
+  - injection H as ->. exists [], ts. auto.
+  - destruct (IH ts p p' H) as (l & r & -> & E). exists (a :: l), r. simpl. rewrite E. auto.
+Qed.
+
+Lemma exec_steps bp : forall sched s ts cfg, exec bp sched s ts = Some cfg -> steps bp (s, ts) cfg.
+Proof.
+  induction sched as [|[i c] rest IH]; simpl; intros s ts cfg H.
+  - injection H as <-. apply steps_refl.
+  - destruct (nth_error ts i) as [p|] eqn:En; [|discriminate].
+    destruct (tstep bp c s p) as [[s' p']|] eqn:Et; [|discriminate].
+    destruct (upd_split i ts p p' En) as (l & r & -> & Eu). rewrite Eu in H.
+    eapply steps_trans; [|apply IH; exact H].
+    eapply steps_step; [apply steps_refl|]. econstructor. exact Et.
+Qed.
